@@ -158,6 +158,13 @@ class Run:
             else:
                 self.obligations.append((n, False, 'theorem not found'))
                 self.violations.append(dict(what='theorem %s is missing from the Lean library' % n, input=None, log=out[-2000:]))
+        if self.tier == 'thorough':
+            # independent re-check of the compiled property module by the toolchain's leanchecker
+            mod = 'NopModel.Properties.%s' % self.pid
+            pc = subprocess.run(['lake', 'env', 'leanchecker', mod], cwd=nv.LEAN, stdout=subprocess.PIPE, stderr=subprocess.STDOUT, text=True)
+            self.cov['leanchecker'] = '%s: %s' % (mod, 'accepted' if pc.returncode == 0 else 'REJECTED')
+            if pc.returncode != 0:
+                self.violations.append(dict(what='leanchecker rejects the compiled module %s' % mod, input=None, log=pc.stdout[-3000:]))
 
     # ---- stage 2: correspondence ---------------------------------------------------------
     def corr_stage(self):
